@@ -11,6 +11,9 @@ CLAIMED = {
  "C15": ("Bounded model checking: Checksum is shown equal to the RFC 1071 one's-complement checksum for every content and every length in the tier bound by induction on the length (base case + one SMT-discharged step per length, from the real SSA), cross-checked by direct equivalence for short lengths; IPv4 headers completed by SetPayload/AppendPayload sum to zero under an independent reference for every field value and payload length.",
          "Trusted: go/ssa, gse semantics, z3/cvc5 (portfolio), the cut-point generalisation argument (unsat of the generalised query implies unsat of the original). Bound: lengths 0..128 quick / 0..1522 thorough. ICMP message completions are decided under C07.",
          "DESIGN.md §4 C15", "induction on length with cut-point generalisation over go/ssa terms, SMT (z3 fresh-context, cvc5/z3-int portfolio)"),
+ "C02": ("Bounded model checking, differential: the real Session.Parse and the real field getters are executed symbolically next to an independent RFC reference decoder / RFC-position extractors; for every frame of length 0..1536 (all contents, so every EtherType, protocol, port pair and length field) PayloadID, MACs, IPs, ports, presence and offsets of the IPv4/IPv6/UDP/TCP views, payload and the error verdict are asserted equal by SMT on every path.",
+         "Trusted: go/ssa, gse semantics, z3, and the reference decoder in harness/root/c02_ref.go (short, written from the RFCs and the documented table). Getter coverage: IP4, IP6, UDP, TCP, ARP, ICMP/ICMPEcho, DNS header, DHCP4 fixed fields.",
+         "DESIGN.md §4 C02", "differential bounded symbolic execution (implementation vs RFC reference decoder), SMT equality per path"),
 }
 
 NOT_APPLICABLE = {
